@@ -1,6 +1,6 @@
 """C10 - DecisionTreeLogisticRegression is a consistent tree of binary classifiers."""
 from vf import loader
-from vf.core import Clause, Outcome, Violation, require, np_scalars, with_np, with_sk
+from vf.core import Clause, Outcome, Violation, require, np_scalars, with_np, with_sk, round_trip, COPIES
 from vf.estimators import CentroidClassifier, SkewedClassifier
 
 import numpy as np
@@ -88,6 +88,10 @@ def check(case):
         raise
     require(r is m, "fit:not-self", "", facts)
     require(np.array_equal(X, X0), "input-modified", "", facts)
+    if case.get("via_copy"):
+        # the fitted model after persistence / a deep copy: every clause below is about the copy
+        m = round_trip(m, case["via_copy"])
+    facts["via_copy"] = case.get("via_copy") or "none"
     classes = list(m.classes_)
     require(len(classes) == 2 and set(classes) == set(y.tolist()), "classes_", "%r" % (classes,), facts)
     nn = int(m.n_nodes_)
@@ -163,7 +167,8 @@ def check(case):
             require(bool(np.all(np.abs(P[j] - exp) <= 1e-9)), "proba:not-terminal-node", "row %d: %r, terminal node %d answers %r" % (j, P[j].tolist(), path[-1], exp.tolist()), facts)
     nreal = n_nodes_real if n_nodes_real is not None else len(set(np.nonzero(DPd)[1].tolist()))
     labels = [case["base"], "algo=" + str(o["fit_improve_algo"]), "nodes=1" if nreal == 1 else ("nodes=2" if nreal == 2 else ("nodes<=6" if nreal <= 6 else "nodes>6")),
-              "structural-" + structural, "labels=" + case["label_kind"], "ambiguous-rows" if ambiguous else "no-ambiguous-row"]
+              "structural-" + structural, "labels=" + case["label_kind"], "ambiguous-rows" if ambiguous else "no-ambiguous-row",
+              "via-copy:" + str(case.get("via_copy") or "none")]
     return Outcome(labels, nreal >= 3)
 
 
@@ -203,6 +208,6 @@ def _cases(draw, tier="quick"):
 
 
 CLAUSES = [
-    Clause("tree", check, strategy=lambda tier: with_sk(with_np(_cases(tier))), quick=4000, thorough=60000, quick_shards=16,
+    Clause("tree", check, strategy=lambda tier: st.builds(lambda c, h: dict(c, via_copy=h), with_sk(with_np(_cases(tier))), st.sampled_from(COPIES)), quick=4000, thorough=60000, quick_shards=16,
            doc="observable clauses + reference traversal of tree_"),
 ]
